@@ -30,9 +30,11 @@ ASSUMPTIONS = [
     'is under observation',
     'SQLite file; one fresh interpreter per run',
 ]
-FLOORS = {'quick': {'nontrivial': 40, 'rejections_checked': 40,
+FLOORS = {'quick': {'decoy_runs': 10, 'perturb_bad_update_func': 4, 
+                    'nontrivial': 40, 'rejections_checked': 40,
                     'm2m_edit': 5, 'with_migration_app': 10},
-          'thorough': {'nontrivial': 800, 'rejections_checked': 800,
+          'thorough': {'decoy_runs': 60, 'perturb_bad_update_func': 40, 
+                       'nontrivial': 800, 'rejections_checked': 800,
                        'm2m_edit': 100, 'with_migration_app': 200}}
 SIZES = {'quick': 96, 'thorough': 1600}
 TIMEOUT = {'quick': 170, 'thorough': 1700}
